@@ -79,3 +79,9 @@ claim("C10",
       "With a user tree only labels that resolve to exactly one node are enumerated. One known finding (stream placed in a zone that also has sub-zones is dropped) is matched by an independently computed cause predicate.",
       "bounded-exhaustive label/tree enumeration on the real zone-tree construction",
       "DESIGN.md section 4 C10")
+
+claim("C11",
+      "Explicit-state search over call histories, executed in long-lived worker processes so that any state the library keeps between calls shows: (a) every sequence of <=2 (quick) / <=3 (thorough) pinch_analysis_service calls over a 15-event menu (5 problems chosen to collide on library state x dict / freshly validated model / ONE model object reused) plus every sequence of <=3 / <=4 calls over the 8 events that carry state; (b) every sequence of <=4 / <=5 PinchProblem load/target/export calls over 5 events. After every call: output == output of the same problem computed in a fresh interpreter (canonical JSON incl. the set of graph keys), caller's input == its snapshot, every earlier output == its snapshot, digest of the library's module state (data globals, every function's defaults, class attributes) unchanged. States reported = distinct module digests reached (1 on a pure library).",
+      "Fresh-interpreter references are computed once per run, one subprocess per problem. Every violation found in a worker is re-executed in a fresh interpreter by the engine and reported either way.",
+      "explicit-state BFS over call histories on the real library with a fresh-process differential oracle and a module-state digest",
+      "DESIGN.md section 4 C11")
